@@ -1,0 +1,81 @@
+//go:build verif
+
+package peering
+
+import (
+	"context"
+	"time"
+
+	"github.com/libp2p/go-libp2p/core/host"
+	"github.com/libp2p/go-libp2p/core/peer"
+)
+
+// VerifHandler gives the external verification harness direct access to one
+// peerHandler, so that the steps the service normally runs in goroutines
+// (startIfDisconnected, stopIfConnected, the timer-driven reconnect) can be
+// executed in a chosen order. Built only with the "verif" tag.
+type VerifHandler struct{ h *peerHandler }
+
+// VerifNewHandler builds a handler exactly as AddPeer does.
+func VerifNewHandler(h host.Host, info peer.AddrInfo) *VerifHandler {
+	ph := &peerHandler{host: h, peer: info.ID, addrs: info.Addrs, nextDelay: initialDelay}
+	ph.ctx, ph.cancel = context.WithCancel(context.Background())
+	return &VerifHandler{h: ph}
+}
+
+func (v *VerifHandler) StartIfDisconnected() { v.h.startIfDisconnected() }
+func (v *VerifHandler) StopIfConnected()     { v.h.stopIfConnected() }
+func (v *VerifHandler) Reconnect()           { v.h.reconnect() }
+func (v *VerifHandler) Stop()                { v.h.stop() }
+
+// TimerState reports whether the reconnect timer exists and whether it is
+// still scheduled. A scheduled timer is pushed an hour into the future so
+// that it never fires on its own during a harness run.
+func (v *VerifHandler) TimerState() (exists, scheduled bool) {
+	v.h.mu.Lock()
+	defer v.h.mu.Unlock()
+	if v.h.reconnectTimer == nil {
+		return false, false
+	}
+	scheduled = v.h.reconnectTimer.Stop()
+	if scheduled {
+		v.h.reconnectTimer.Reset(time.Hour)
+	}
+	return true, scheduled
+}
+
+// Fire makes a scheduled timer expire: it is descheduled (as a timer that has
+// fired is) and the caller then runs Reconnect, which is what the timer would
+// have called. It reports false if no timer was scheduled.
+func (v *VerifHandler) Fire() bool {
+	v.h.mu.Lock()
+	defer v.h.mu.Unlock()
+	if v.h.reconnectTimer == nil {
+		return false
+	}
+	return v.h.reconnectTimer.Stop()
+}
+
+// NextDelay returns the current backoff value.
+func (v *VerifHandler) NextDelay() time.Duration {
+	v.h.mu.Lock()
+	defer v.h.mu.Unlock()
+	return v.h.nextDelay
+}
+
+// Constants of the backoff schedule, for the harness.
+const (
+	VerifMaxBackoff       = maxBackoff
+	VerifMaxBackoffJitter = maxBackoffJitter
+	VerifInitialDelay     = initialDelay
+)
+
+// VerifServiceHandler returns the handler the service keeps for a peer, or nil.
+func VerifServiceHandler(ps *PeeringService, id peer.ID) *VerifHandler {
+	ps.mu.RLock()
+	defer ps.mu.RUnlock()
+	if h, ok := ps.peers[id]; ok {
+		return &VerifHandler{h: h}
+	}
+	return nil
+}
